@@ -34,14 +34,29 @@ PUNCT = ['.', ':', '-', '!', '?', '/', '|', '*', '+', '=', '%', '^', '~', '_', '
 LOOPVARS = ['j', 'q', 'z', 'jq', 'qz', 'zj', 'jj', 'qq', 'zz', 'jz', 'qj', 'zq']
 NATURAL_LOOPVARS = ['n', 'm', 'i', 'k']
 PARAM_NAMES = ['g', 'h', 'i', 'k', 'm', 'n', 'p', 'r', 's', 't', 'u', 'v', 'w', 'x', 'y', 'lo', 'hi', 'len', 'num', 'val']
-ALT_DELIMS = '/|!@%^*_+=~:.?-'
-ALT_SEPS = '/|!@%^*_+=~:.?- '
+# '-' is excluded: a negative loop value substituted into a parameter would contain it
+ALT_DELIMS = '/|!@%^*_+=~:.?'
+ALT_SEPS = '/|!@%^*_+=~:.? '
 
 class Tok:
-    __slots__ = ('text', 'forbid')
-    def __init__(self, text, forbid=F_NONE):
+    '''Rendered text + the characters that must not follow it (they would be read as part of its parameters).
+    subst: the text is (or starts with) a placeholder that is replaced by a number or word before the macro to
+    its left is parsed (loop variable, #DEF parameter, replacement field).'''
+    __slots__ = ('text', 'forbid', 'subst')
+    def __init__(self, text, forbid=F_NONE, subst=False):
         self.text = text
         self.forbid = forbid
+        self.subst = subst
+
+F_ALL = frozenset(ALNUM + ',($;=#')
+
+def clash(prev, tok):
+    '''True if tok may not directly follow prev.'''
+    if not prev.forbid or not tok.text:
+        return False
+    if tok.subst:
+        return True
+    return tok.text[0] in prev.forbid
 
 class Reject(Exception):
     """This tree cannot be rendered unambiguously (no admissible delimiter etc.); the generator retries."""
@@ -82,6 +97,7 @@ class Renderer:
         self.hazards = set(hazards)
         self.stats = {}
         self.used_loopvars = []
+        self.sparam_texts = set()
 
     def count(self, what):
         self.stats[what] = self.stats.get(what, 0) + 1
@@ -96,7 +112,7 @@ class Renderer:
             opts += ['[']
         if rc['brace'] == 0 and not rc['dollar'] and paren_ok(s, '{', '}'):
             opts += ['{']
-        alts = [d for d in ALT_DELIMS if d not in s]
+        alts = [d for d in ALT_DELIMS if d not in s and not (rc['dollar'] and d == '_')]
         if alts:
             opts += ['alt']
         if not opts:
@@ -120,8 +136,11 @@ class Renderer:
             if rc['brace'] == 0 and not rc['dollar'] and paren_ok(joined, '{', '}'):
                 opts += ['{']
         everything = ''.join(args)
-        ds = [d for d in ALT_DELIMS if d not in everything]
-        ss = [s for s in ALT_SEPS if s not in everything]
+        ds = [d for d in ALT_DELIMS if d not in everything and not (rc['dollar'] and d == '_')]
+        ss = [s for s in ALT_SEPS if s not in everything and not (rc['dollar'] and s == '_')]
+        if any(m in everything for m in self.sparam_texts):
+            # a string argument (words separated by spaces) will be substituted here
+            ss = [s for s in ss if s != ' ']
         if ds and ss:
             opts += ['alt'] * 2
         if not opts:
@@ -130,7 +149,7 @@ class Renderer:
         if o == 'alt':
             for _ in range(10):
                 d, s = rng.choice(ds), rng.choice(ss)
-                if rng.random() < 0.3 and d in ss:
+                if rng.random() < 0.3 and d in ss and not any(m in everything for m in self.sparam_texts):
                     s = d
                 j = s.join(args)
                 if (j + s + d).find(s + d) == len(j):
@@ -276,31 +295,40 @@ class Renderer:
         return Tok(n.s)
 
     def r_var(self, n, rc):
-        return Tok(chr(0xE000 + n.id))
+        return Tok(chr(0xE000 + n.id), subst=True)
 
     def r_par(self, n, rc):
-        return self.param_ref(n, rc)
+        t = self.param_ref(n, rc)
+        t.subst = True
+        if getattr(n, 'skind', 'i') == 's':
+            # the argument text is substituted raw: it may end with an open-ended macro
+            t.forbid = t.forbid | F_ALL
+            self.sparam_texts.add(t.text)
+        return t
 
     def r_fld(self, n, rc):
-        return Tok(self.field(n, rc, n.spec))
+        return Tok(self.field(n, rc, n.spec), subst=True)
 
     def r_seq(self, n, rc):
         out = []
         items = []
         prev = None
+        first = None
         for c in n.items:
             t = self.text(c, rc)
             if not t.text:
                 items.append(c)
                 continue
-            if prev is not None and prev.forbid and t.text[0] in prev.forbid:
+            if first is None:
+                first = t
+            if prev is not None and clash(prev, t):
                 items.append(N('lit', s=' '))
                 out.append(' ')
             items.append(c)
             out.append(t.text)
             prev = t
         n.items = items
-        return Tok(''.join(out), prev.forbid if prev is not None else F_NONE)
+        return Tok(''.join(out), prev.forbid if prev is not None else F_NONE, subst=first is not None and first.subst)
 
     def guard(self, node, tok):
         """Close an open-ended tail of a string parameter with a literal character (returns node, text)."""
@@ -369,11 +397,14 @@ class Renderer:
             return Tok(s, t.forbid | F_PAREN)
         forbid = F_NONE
         args = []
-        for a in (n.prefix, n.suffix):
-            if a is not None:
-                at = self.text(a, rc)
-                forbid |= at.forbid
-                args.append(at.text)
+        if n.prefix is not None:
+            # the digits follow the prefix directly
+            n.prefix, ptext = self.guard(n.prefix, self.text(n.prefix, rc))
+            args.append(ptext)
+        if n.suffix is not None:
+            at = self.text(n.suffix, rc)
+            forbid |= at.forbid
+            args.append(at.text)
         if n.suffix is not None and n.prefix is None:
             args.insert(0, '')
         if not args:
@@ -536,15 +567,14 @@ class Renderer:
         inner = dict(rc, brace=rc['brace'] + 1)
         parts = []
         forbid = F_NONE
-        for p in n.parts:
+        for i, p in enumerate(n.parts):
             if p.k == 'fld':
                 parts.append(self.field(p, rc, p.spec))
             elif p.k == 'lit':
                 parts.append(p.s)
             else:
-                t = self.text(p, inner)
-                forbid |= t.forbid
-                parts.append(t.text)
+                n.parts[i], ptext = self.guard(p, self.text(p, inner))
+                parts.append(ptext)
         s = ''.join(parts)
         if n.case is None:
             body = self.delimit_single(s, rc, allow_paren=False)
@@ -659,6 +689,7 @@ class ChunkGen:
         self.nvar = 0
         self.cfg_custom = ro['cfg_mode'] == 'custom'
         self.pushed = []
+        self.plain_mode = 0     # > 0: no & < > in literals and no macro that expands to an HTML entity (value is stored in a string variable)
 
     # --------------------------------------------------------------- names
     def newname(self, kind):
@@ -697,10 +728,16 @@ class ChunkGen:
         return s
 
     def lit_text(self, plain=False, lo=1, hi=3):
-        s = self.words(lo, hi, plain=plain)
+        s = self.words(lo, hi, plain=plain or self.plain_mode > 0)
         if self.hazard != 'esc' and self.loops:
             pass
         return lit(s)
+
+    def br(self):
+        pairs = [('', ''), ('[', ']'), ('(', ')'), ('v=', ''), ('', '.')]
+        if not self.plain_mode:
+            pairs += [('<', '>'), ('<', '')]
+        return self.rng.choice(pairs)
 
     def plain_word(self):
         return self.rng.choice(['up', 'down', 'left', 'right', 'one', 'two', 'Yes', 'No', 'on', 'off', 'x', 'y', '0', '1', '12', 'A', 'ok'])
@@ -958,7 +995,7 @@ class ChunkGen:
             p = rng.choice(sp)
             if p[1] == 's' and self.loops:
                 return self.lit_text()
-            return N('par', name=p[0])
+            return N('par', name=p[0], skind=p[1])
         return self.lit_text()
 
     def g_lit(self, depth):
@@ -1012,7 +1049,7 @@ class ChunkGen:
         if rng.random() < 0.45:
             n.affix = self.gen_num(1)
             r = rng.random()
-            pre = lit(rng.choice(['0x', '$', '#x'.replace('#', 'h'), 'hex ', '&'])) if depth <= 1 or rng.random() < 0.7 else self.gen_pure(depth - 1)
+            pre = lit(rng.choice(['0x', '$', 'hx', 'hex ', '&' if not self.plain_mode else 'x'])) if depth <= 1 or rng.random() < 0.7 else self.gen_pure(depth - 1)
             suf = lit(rng.choice(['h', 'H', ' hex', '.'])) if depth <= 1 or rng.random() < 0.7 else self.gen_pure(depth - 1)
             if self.in_def is not None:
                 pre = lit(rng.choice(['0x', 'hex ']))
@@ -1162,7 +1199,7 @@ class ChunkGen:
             return lit(rng.choice([' and ', ' or ', ' & '.replace('&', '+'), '; '.replace(';', ':'), ' - ']))
         if r < 0.75:
             return lit(rng.choice([', ', ',', ' ', '/', '-', ' | ', ':', '; '.replace(';', '.'), '+', ' ']))
-        if depth > 0 and r < 0.85:
+        if depth > 0 and r < 0.85 and not self.plain_mode:
             return N('seq', items=[self.g_chr_safe(), lit('')]) if rng.random() < 0.5 else N('space', e=None if rng.random() < 0.5 else self.gen_num(rng.randint(1, 3)))
         return lit('')
 
@@ -1176,7 +1213,8 @@ class ChunkGen:
             before = loop.get('refs', 0)
             r = rng.random()
             if r < 0.25:
-                body = N('seq', items=[lit(rng.choice(['', '[', '<', 'v=', '(', ''])), N('var', id=loop['id']), lit(rng.choice(['', ']', '>', '', ')', '']))])
+                b1, b2 = self.br()
+                body = N('seq', items=[lit(b1), N('var', id=loop['id']), lit(b2)])
                 loop['refs'] = before + 1
             elif r < 0.5:
                 body = self.gen_pure(max(depth, 1))
@@ -1200,9 +1238,6 @@ class ChunkGen:
                 vals[rng.randrange(cnt)] = lit(rng.choice(['a&b', 'x<y', 'p>r', '<b>']))
                 self.features.add('hazard:escaped-char-in-foreach-value')
                 self.hazard_hit = True
-            elif depth > 1 and rng.random() < 0.2 and not self.loops and not self.params:
-                vals[rng.randrange(cnt)] = N('peek', addr=self.gen_num(self.addr_ro()))
-                numeric = all(v.k == 'peek' or v.s.isdigit() for v in vals)
         if len(vals) == 1 and vals[0].k == 'lit' and vals[0].s.upper().startswith(('E', 'R', 'P')):
             vals[0] = lit('x' + vals[0].s)
             numeric = False
@@ -1223,6 +1258,8 @@ class ChunkGen:
 
     def g_chr(self, depth):
         rng = self.rng
+        if self.plain_mode:
+            return self.lit_text()
         self.features.add('CHR')
         r = rng.random()
         if r < 0.25:
@@ -1235,6 +1272,8 @@ class ChunkGen:
 
     def g_space(self, depth):
         rng = self.rng
+        if self.plain_mode:
+            return self.lit_text()
         self.features.add('SPACE')
         if rng.random() < 0.3:
             return N('space', e=None)
@@ -1253,6 +1292,8 @@ class ChunkGen:
         self.features.add('STR')
         s = rng.choice(self.ro['strings'])
         flags = rng.choice([0, 0, 1, 2, 3, 4, 5, 7])
+        if self.plain_mode:
+            flags &= 3
         n = N('str', addr=self.gen_num(s['addr']), flags=None, length=None, end=None)
         if s['kind'] == 'end':
             n.flags = self.gen_num(flags | 8)
@@ -1330,6 +1371,8 @@ class ChunkGen:
         return N('fld', name=name, key=key, spec=spec)
 
     def g_call(self, depth):
+        if self.plain_mode:
+            return self.lit_text()
         d = self.rng.choice([d for d in self.defs if d.pure])
         return self.make_call(d, depth)
 
@@ -1380,10 +1423,8 @@ class ChunkGen:
                 for i in range(ns):
                     if rng.random() < 0.15:
                         sargs.append(lit(''))
-                    elif depth > 1 and rng.random() < 0.3 and not self.loops:
-                        sargs.append(self.gen_pure(depth - 1))
                     else:
-                        sargs.append(lit(self.words(1, 2, plain=True)))
+                        sargs.append(lit(' '.join(self.plain_word() for _ in range(rng.randint(1, 2)))))
         return N('call', name=d.name, defn=d, iargs=iargs, sargs=sargs)
 
     # --------------------------------------------------------------- statements (state-changing)
@@ -1416,7 +1457,9 @@ class ChunkGen:
             if r < 0.5:
                 parts.append(lit(self.words(1, 2, plain=True)))
             elif r < 0.75 and depth > 1:
+                self.plain_mode += 1
                 p = self.gen_pure(depth - 1)
+                self.plain_mode -= 1
                 parts.append(p)
             else:
                 f = self.gen_field()
@@ -1541,7 +1584,7 @@ class ChunkGen:
         self.loops = saved_loops
         self.in_def = None
         d = N('def', name=name, flags=flags, iparams=iparams, sparams=sparams, body=body, pure=not impure,
-              nn_params=nn_params, small_params=small_params, explicit_flags=rng.random() < 0.3 or (not iparams))
+              nn_params=nn_params, small_params=small_params, explicit_flags=rng.random() < 0.3 or (not iparams) or impure)
         self.after = lambda: self.defs.append(d)
         return d
 
@@ -1569,7 +1612,7 @@ class ChunkGen:
         elif out == 'format':
             core = N('format', case=self.gen_num(0), parts=[N('fld', name=name, key=None, spec=rng.choice(['', '02X', 'b']))])
         else:
-            core = N('seq', items=[lit('<'), self.gen_pure(max(depth - 1, 1)), lit('>')])
+            core = N('seq', items=[lit('['), self.gen_pure(max(depth - 1, 1)), lit(']')])
         items = [core, update] if rng.random() < 0.7 else [update, core]
         if rng.random() < 0.5:
             items.insert(1, lit(' '))
@@ -1718,6 +1761,8 @@ class ChunkGen:
                 d = self.pick_depth()
                 node = getattr(self, 'stmt_' + k)(d)
                 self.add_stmt(items, node)
+                if hz == 'let-space' and i == 0:
+                    items += [lit('['), N('format', case=num(0), parts=[N('fld', name=node.name, key=None, spec='')]), lit(']')]
                 if k == 'def' and not node.pure:
                     # call the impure macro (statement level) and read the variable it changes
                     for j in range(rng.randint(1, 2)):
@@ -1801,6 +1846,10 @@ def make_chunk(rng, cid, region, ro, base_state, opts, hazard=None, tries=60):
                 raise Reject('not idempotent')
             if len(text) > 1500 or len(out1) > 3000:
                 raise Reject('too long')
+            if g.uses_pc:
+                # the value must be defined at every address the text can be attached to
+                for pc in ro['code_addrs']:
+                    evaluate(tree, base_state, opts, pc)
             return Chunk(cid, text, tree, g, r.stats)
         except (Reject, Undefined) as e:
             last = e
